@@ -2,7 +2,7 @@
    Only statements here; proofs are in Theory/QSMMatmul.v (and Theory/General.v).
    All theorems: any field F, any size, any orders, any right-hand-side width, all generator values. *)
 From mathcomp Require Import all_ssreflect all_algebra.
-From TinyGP Require Import Base.Ops Base.LMat Model.QSMCore Theory.MxRefine Theory.QSMDen Theory.QSMMatmul.
+From TinyGP Require Import Base.Ops Base.LMat Model.QSMCore Model.General Theory.MxRefine Theory.QSMDen Theory.QSMMatmul Theory.GeneralThy.
 Set Implicit Arguments. Unset Strict Implicit. Unset Printing Implicit Defensive.
 Import GRing.Theory.
 Local Open Scope ring_scope.
@@ -38,6 +38,15 @@ Theorem C04_rmatmul_den (F : fieldType) (sq : F -> F) (lt : F -> F -> bool) r (x
   mx_of r (qsize A) (qrmatmul (fops sq lt) r x A) = mx_of r (qsize A) x *m den (qsize A) A.
 Proof. exact: qrmatmul_den. Qed.
 Print Assumptions C04_rmatmul_den.
+
+(* rectangular form: for EVERY integer index vector (idx_i = -1: row before every column; idx_i = n2-1: after every column;
+   unsorted / repeated / out-of-range indices too) the product is (gden G) x, where
+     gden G i j = pl_i a_{idx_i} ... a_{j+1} ql_j            if j <= idx_i   and 0 <= idx_i < n2   (else 0)
+                = qu_i a_{idx_i+2}^T ... a_j^T pu_j          if j >  idx_i   and -1 <= idx_i < n2-1 (else 0) *)
+Theorem C04_general_matmul_den (F : fieldType) (sq : F -> F) (lt : F -> F -> bool) (G : gqsm F) c (x : mat F) :
+  mx_of (gn1 G) c (gmatmul (fops sq lt) c G x) = gden G *m mx_of (gn2 G) c x.
+Proof. exact: gmatmul_den. Qed.
+Print Assumptions C04_general_matmul_den.
 
 (* non-vacuity: a concrete 3x3 square matrix of orders (1,1) is well formed *)
 Example C04_wf_example : qwf (Square [:: 1; 2; 3]%R
